@@ -76,12 +76,22 @@ func stWorldCfg(wrap *stWrap, cfg any) world.Config {
 // stStart creates the store-backed broker (fresh hook instance on store) and starts it
 // through Server.Serve at virtual time atMs.
 func stStart(store *stStore, atMs int64, tune func(w *stWrap)) (*H, *stWrap) {
+	return stStartWith(nil, store, atMs, tune, nil)
+}
+
+// stStartWith: as stStart, under the schedule prefix of a schedule exploration (E3) and
+// with a modified world configuration.
+func stStartWith(prefix []int, store *stStore, atMs int64, tune func(w *stWrap), mod func(c *world.Config)) (*H, *stWrap) {
 	hook, cfg := store.Hook()
 	wrap := stNewWrap(hook)
 	if tune != nil {
 		tune(wrap)
 	}
-	h := newH(stWorldCfg(wrap, cfg))
+	wcfg := stWorldCfg(wrap, cfg)
+	if mod != nil {
+		mod(&wcfg)
+	}
+	h := &H{W: world.New(prefix, wcfg), Cl: map[string]*world.Client{}}
 	if atMs > 0 {
 		h.W.X.Advance(atMs)
 	}
@@ -111,13 +121,17 @@ func stNewScen(store *stStore, tune func(w *stWrap)) *stScen {
 
 // stConnectPacket: mode k = resume (clean 0; v5: session expiry 60), c = clean start
 // (v5: session expiry 60), n = v5 clean 0 without a session expiry property (session
-// ends with the connection), x = clean, no expiry (ephemeral).
+// ends with the connection), x = clean, no expiry (ephemeral), r = like k with Receive
+// Maximum 1 (v5: the second unacknowledged QoS>0 message is held back by the broker).
 func stConnectPacket(name, mode string) ref.Packet {
 	d := stClients[name]
 	clean := mode == "c" || mode == "x"
 	var props []ref.Prop
-	if d.Ver == 5 && (mode == "k" || mode == "c") {
+	if d.Ver == 5 && (mode == "k" || mode == "c" || mode == "r") {
 		props = append(props, ref.Prop{ID: ref.PSessionExpiry, Num: stSEI})
+	}
+	if d.Ver == 5 && mode == "r" {
+		props = append(props, ref.Prop{ID: ref.PReceiveMaximum, Num: 1})
 	}
 	return world.ConnectPacket(d.ID, d.Ver, clean, props...)
 }
